@@ -67,7 +67,7 @@ def gen_cases(tier, seed):
                     yield {"prop": PROP, "id": "p%d" % n, "batch": "kind_x_position", "gen": {"family": "failures", "spec": spec}, "env": mk_env(rng)}
                     n += 1
     # 3. random histories
-    total = 1500 if quick else 25000
+    total = 3000 if quick else 36000
     clean = [f for f in names if f not in failures.ARITH_OVERFLOW]
     for i in range(total):
         rng = Rng(derive(seed, PROP, "rand", i))
